@@ -8,7 +8,7 @@ use crate::rng::Rng;
 use serde_json::{json, Value};
 
 pub fn count(tier: Tier) -> u64 {
-    tier.pick(240, 1200)
+    tier.pick(240, 5000)
 }
 
 /// A store sorted ON a reference: key = (position of the parent, rank among siblings). The sort key depends on
